@@ -612,7 +612,7 @@ func checkC13(w *World, r *Report) {
 		r.Check(bad == "" && n > 0, "C13.W-CLOSURE", "API:Progress.Write closure", w.pos(clo.Pos()), "one Write of the caller's slice; (n, err) replied unchanged", bad)
 		// the requester returns the reply's fields
 		bad = ""
-		w.enumPaths(meth, pathOpts{}, func(p *Path) {
+		w.enumPaths(meth, off.opts(w), func(p *Path) {
 			if p.armTaken(off.Sel) != off.State || p.Exit != "return" || len(p.Ret) != 2 {
 				return
 			}
@@ -887,6 +887,9 @@ func checkC14(w *World, r *Report) {
 		origins := w.fieldOrigins("Progress.done")
 		okD := true
 		for k := range origins {
+			if k == "Done(pState.ctx)" && w.containerCtxIsCancelable() {
+				continue // the same context, read back from the container state
+			}
 			if !(k == "Done(WithCancel)" || (len(k) > 5 && k[:5] == "make(")) {
 				okD = false
 			}
@@ -1552,4 +1555,58 @@ func ruleErrorPropagation(w *World, r *Report, pfx string) {
 		}
 		r.Check(bad == "" && sawDraw, rule, "render closure error paths", w.pos(rc.Pos()), "draw/extender errors reach frame.err; buffers reset", orStr(bad, "draw error path not found"))
 	}
+}
+
+
+// containerCtxIsCancelable: every store to pState.ctx stores the context made by
+// context.WithCancel (directly or handed down as an argument by the constructor).
+func (w *World) containerCtxIsCancelable() bool {
+	isWC := func(v ssa.Value) bool {
+		ex, ok := stripConv(v).(*ssa.Extract)
+		if !ok || ex.Index != 0 {
+			return false
+		}
+		c, ok := ex.Tuple.(*ssa.Call)
+		return ok && staticCalleeName(&c.Call) == "context.WithCancel"
+	}
+	n := 0
+	for _, fn := range w.ModFns {
+		for _, b := range fn.Blocks {
+			for _, in := range b.Instrs {
+				st, ok := in.(*ssa.Store)
+				if !ok {
+					continue
+				}
+				f, ok := fieldOf(st.Addr)
+				if !ok || f.Owner != tPState || f.Name != "ctx" {
+					continue
+				}
+				n++
+				v := w.origin(st.Val)
+				if isWC(v) {
+					continue
+				}
+				par, ok := v.(*ssa.Parameter)
+				if !ok {
+					return false
+				}
+				idx := -1
+				for i, q := range fn.Params {
+					if q == par {
+						idx = i
+					}
+				}
+				sites := w.callers[fn]
+				if len(sites) == 0 || idx < 0 {
+					return false
+				}
+				for _, site := range sites {
+					if site.Common().StaticCallee() != fn || idx >= len(site.Common().Args) || !isWC(w.origin(site.Common().Args[idx])) {
+						return false
+					}
+				}
+			}
+		}
+	}
+	return n > 0
 }
